@@ -135,8 +135,17 @@ def evaluate(dic, cmd, cfg, emitted):
     try:
         lp = target()
     except Exception as e:  # noqa: BLE001
-        tb = traceback.extract_tb(e.__traceback__)[-1]
-        return fails + [(f"eval:density-raises:{type(e).__name__}:{tb.name}", f"evaluating {target_id} raised {type(e).__name__}: {str(e)[:120]}")]
+        # locate the term that raises
+        who = "?"
+        terms = flatten_models(target)
+        for m in terms:
+            try:
+                m()
+            except Exception:  # noqa: BLE001
+                who = f"{type(m).__name__}:{getattr(m, 'id', '?')}"
+                break
+        return fails + [(f"eval:density-raises:{type(e).__name__}:{who}",
+                         f"evaluating {target_id} raised {type(e).__name__} in `{who}`: {str(e)[:120]}")]
     if not bool(torch.isfinite(lp).all()):
         bad = [m.id for m in flatten_models(dic["joint"]) if not bool(torch.isfinite(m()).all())]
         fails.append(("eval:density-not-finite:" + ",".join(sorted(str(b) for b in bad))[:60],
@@ -260,6 +269,11 @@ def check_init(dic, cfg):
 # ---------------------------------------------------------------------- one configuration
 def run_config(C, cfg, data):
     """-> (outcome class, [(signature, what)], records, extra)"""
+    oc, fails, recs, extra = _run_config(C, cfg, data)
+    return oc, [(norm_sig(s), w) for s, w in fails], recs, extra
+
+
+def _run_config(C, cfg, data):
     argv = S.to_argv(cfg, data)
     try:
         with contextlib.redirect_stdout(io.StringIO()):
@@ -286,6 +300,11 @@ def run_config(C, cfg, data):
         tb = traceback.extract_tb(e.__traceback__)[-1]
         fails = [(f"eval:harness:{type(e).__name__}:{tb.name}", f"evaluation raised {type(e).__name__}: {str(e)[:160]}")]
     return ("ok" if not fails else "eval-fails"), fails, recs, None
+
+
+def norm_sig(s):
+    """signatures are looked up in KNOWN_FINDINGS.txt: no white space, stable characters only"""
+    return re.sub(r"-+", "-", re.sub(r"[^A-Za-z0-9_.:]+", "-", s)).strip("-")[:110]
 
 
 def shrink_config(C, cfg, data, sig):
@@ -371,7 +390,7 @@ def lean_correspondence(ck, drv, recs, cfg):
             if d:
                 ck.mismatch("make_unconstrained differs from model", {"cfg": cfg, "first_difference": d})
             ck.bucket("corr/make_unconstrained")
-        elif r["fn"] == "variational" and cfg.get("family") == "meanfield":
+        elif r["fn"] == "variational" and cfg.get("family") == "meanfield" and cfg.get("distribution") == "Normal":
             rep = drv.ask("mf " + encs(r["before"]))
             if rep.startswith("ok "):
                 got = decs(rep[3:])
@@ -456,7 +475,7 @@ def run(ck: Check):
             if oc == "cli-reject":
                 ck.bucket("cli-reject/" + str(extra)[:60])
             for s, w in fails:
-                found.setdefault(s, []).append((cfg, w))
+                found.setdefault(s, []).append((cfg, w))  # signatures are already normalised by run_config
             if drv is not None and recs:
                 try:
                     lean_correspondence(ck, drv, recs, cfg)
